@@ -495,6 +495,8 @@ def replicated_case(rs, r):
         nops = r.randrange(25, 60)
         cut_at = r.randrange(3, nops // 2)
         heal_at = cut_at + r.randrange(5, nops // 2)
+        burst = []          # submissions not yet awaited: several commands of one apply batch (pipelined callers)
+        burst_len = 1
         for i in range(nops):
             if i == cut_at:
                 others = [k for k in sim.members0 if k != lag]
@@ -521,15 +523,23 @@ def replicated_case(rs, r):
             sub = sim.subs.get(100000 + sim.uid) if sim.uid > before else None
             if sub is None:
                 continue
-            if not wait(lambda: bool(sub['cbs']), 300):
-                # no callback at all leaves the outcome open (C02), e.g. a deposed leader that
-                # catches up by snapshot never walks over the position it was waiting for
-                stats['no_callback'] += 1
+            burst.append((sub, kind, meth))
+            if len(burst) < burst_len and i != nops - 1 and i + 1 not in (cut_at, heal_at):
                 continue
-            stats['ops'] += 1
-            stats['op_%s.%s' % (kind, meth)] += 1
-            if sub['cbs'][0][2] != 0:
-                stats['non_success'] += 1
+            if len(burst) > 1:
+                stats['pipelined_bursts'] += 1
+            for (sub, kind, meth) in burst:
+                if not wait(lambda: bool(sub['cbs']), 300):
+                    # no callback at all leaves the outcome open (C02), e.g. a deposed leader that
+                    # catches up by snapshot never walks over the position it was waiting for
+                    stats['no_callback'] += 1
+                    continue
+                stats['ops'] += 1
+                stats['op_%s.%s' % (kind, meth)] += 1
+                if sub['cbs'][0][2] != 0:
+                    stats['non_success'] += 1
+            burst = []
+            burst_len = r.choice([1, 1, 2, 3, 5])
         sim.one_step(('H',)) if sim.blocked else None
         ok = wait(lambda: sim.mon.converged_basic(), 3000)
         if not ok:
